@@ -51,6 +51,7 @@ func (H) Gen(prop string, rng *rand.Rand, tier string) *core.Plan {
 	// state machines on the same repository) takes over B operations later
 	failover := rng.Intn(3) == 0
 	p.Cfg["mcrash_pm"] = []int{10, 40, 150}[rng.Intn(3)]
+	p.Cfg["racy_start"] = rng.Intn(2) // node and database events arrive while a master is still starting
 	for i := 0; i < n; i++ {
 		node := 1 + rng.Intn(nodes)
 		db := rng.Intn(3)
@@ -244,6 +245,8 @@ type run struct {
 	restartDelay int
 	skipRR       bool // assignments since the last check may come from more than one call / node set
 	tainted      map[int]bool
+	booted       func() bool
+	bootErr      func() error
 }
 
 func dbName(i int) string { return fmt.Sprintf("db%d", i) }
@@ -300,7 +303,8 @@ func (r *run) apply(op core.Op) {
 		if r.dbs[op.T] == nil {
 			return
 		}
-		if !r.started {
+		if !r.started || (r.booted != nil && !r.booted()) || r.repo.starting[r.inc] > 0 {
+			// (no master, or one that has not looked at the database configurations yet)
 			// nobody would ever remove the assignment of a database dropped while there is no master (the new master
 			// learns about present configurations only); what a later database of that name means then is not
 			// something C18 states - the history generator leaves it out
@@ -324,7 +328,7 @@ func (r *run) apply(op core.Op) {
 
 // startMaster: what OnFailOver does - a fresh state manager and fresh state machines on the same repository, in an
 // incarnation of their own (a master is a process that can die).
-func (r *run) startMaster() bool {
+func (r *run) startMaster(racy bool) bool {
 	sim := r.c.Sim
 	r.inc = sim.NewIncarnation()
 	ctx, cancel := context.WithCancel(context.Background())
@@ -340,7 +344,21 @@ func (r *run) startMaster() bool {
 		err = r.fct.Start()
 		booted = true
 	})
-	sim.Await(func() bool { return booted || r.inc != inc || !r.started })
+	r.booted = func() bool { return booted || r.inc != inc || !r.started }
+	r.bootErr = func() error { return err }
+	if racy {
+		r.skipRR = true
+		// the next operations meet a master that is still starting: between the list of a state machine and the
+		// first Get of its watcher, between two state machines ...
+		for k := sim.Tape.Choose(40); k > 0 && !r.booted(); k-- {
+			sim.YieldNow()
+		}
+		if !r.booted() {
+			sim.Fault("event-during-master-start")
+		}
+		return true
+	}
+	sim.Await(r.booted)
 	if err != nil {
 		r.c.Anomaly("state machines: %v", err)
 		return false
@@ -364,6 +382,13 @@ func (r *run) masterGone(kind string) {
 
 // settle waits until every watch event has been delivered and processed.
 func (r *run) settle() {
+	if r.booted != nil {
+		r.c.Sim.Await(r.booted)
+		if err := r.bootErr(); err != nil {
+			r.c.Anomaly("state machines: %v", err)
+			return
+		}
+	}
 	for i := 0; i < 50; i++ {
 		simrt.Sleep(500 * time.Millisecond) // simulated time only advances when every task is blocked
 		if r.repo.idle() {
@@ -571,14 +596,17 @@ func (H) Run(c *core.RunCtx) {
 	for i := 0; i <= len(ops) && !c.Violated(); i++ {
 		if r.everUp && !r.started && (r.restartIn <= 0 || i == len(ops)) {
 			// a new master takes over
-			if !r.startMaster() {
+			racy := c.Plan.C("racy_start", 0) == 1 && i < len(ops)
+			if !r.startMaster(racy) {
 				return
 			}
-			r.settle()
-			if c.Res.Anomaly != "" {
-				return
+			if !racy {
+				r.settle()
+				if c.Res.Anomaly != "" {
+					return
+				}
+				r.check("after master take-over")
 			}
-			r.check("after master take-over")
 		}
 		if !r.started {
 			r.restartIn--
@@ -593,10 +621,20 @@ func (H) Run(c *core.RunCtx) {
 			if r.started {
 				continue
 			}
-			if !r.startMaster() {
+			racy := c.Plan.C("racy_start", 0) == 1
+			if !r.startMaster(racy) {
 				return
 			}
+			if racy {
+				continue // the next operation meets the starting master
+			}
 		case "failover":
+			if !r.started {
+				continue
+			}
+			if r.booted != nil {
+				sim.Await(r.booted) // (a master that is still starting is not failed over)
+			}
 			if !r.started {
 				continue
 			}
